@@ -286,6 +286,8 @@ class Elab:
                 if n in sig.funs and not sig.funs[n][0]:
                     return "(v %d)" % sig.id_of(n), sig.funs[n][1]
                 raise ParseError("unsupported qualified identifier %s" % sx_str(t))
+            if not (isinstance(s, tuple) and s[0] == "U"):
+                raise ParseError("abstract value of an interpreted sort: %s" % sx_str(t))
             return "(a %d %d)" % (s[1], sig.abs_id(s[1], t[1])), s
         args = t[1:]
         if h in ("not", "and", "or", "xor", "=>"):
